@@ -15,6 +15,10 @@ PAT = re.compile(r"^\s*When CEL expression (.+) is evaluated\s*$")
 
 # A small hand-written supplement: one expression per kind of runtime failure / edge the generators reach only rarely.
 EDGE = [
+    # a container indexed by boundary scalars of every kind
+    "[7, 8][9223372036854775808.0]", "[7, 8][1e19]", "[7, 8][-1e300]", "[7, 8][0.0]", "[7, 8][1.0]", "[7, 8][0.5]", "[7, 8][-0.0]", "[7, 8][18446744073709551615u]", "[7, 8][1u]",
+    "[7, 8][9223372036854775807]", "[7, 8][-9223372036854775808]", "[7, 8][true]", "[7, 8][null]", "[7, 8]['0']", "{1: 2}[1.0]", "{1: 2}[1e19]", "{'a': 2}[0]", "'ab'[1e19]", "'ab'[0]",
+    "[7, 8][dyn(1e19)] == 7 || true", "[1e19, 0.0].map(d, [7, 8][d])",
     "-(-9223372036854775808)", "9223372036854775807 + 1", "-9223372036854775808 - 1", "-9223372036854775808 / -1", "-9223372036854775808 % -1",
     "9223372036854775807 * 2", "1 / 0", "1 % 0", "1u / 0u", "1u - 2u", "18446744073709551615u + 1u", "1.0 / 0.0", "-1.0 / 0.0", "0.0 / 0.0",
     "[1][1]", "[1, 2][-1]", "{}['a']", "{'a': 1}.b", "{1: 1, 1: 2}", "{[1]: 1}", "'a'.matches('(')", "int('x')", "uint('-1')", "double('x')",
